@@ -1178,6 +1178,8 @@ func (cfg *Config) glob(base, pat string) ([]string, error) {
 	// Note that the results need to be sorted.
 	// TODO: above we do a BFS; if we did a DFS, the matches would already be sorted.
 	slices.Sort(matches)
+	// More than one "**" can reach the same path in several ways.
+	matches = slices.Compact(matches)
 	// Remove any empty matches left behind from "**".
 	if len(matches) > 0 && matches[0] == "" {
 		matches = matches[1:]
